@@ -17,6 +17,13 @@ import z3
 from .values import Unsupported, Opaque, is_sym, to_z3, And, Or, Not, If, Max, Min, EnumV
 
 
+class PyRaise(Exception):
+    """the operation raises this Python exception at run time (reported as an exception path, not as unsupported)"""
+
+    def __init__(self, exc):
+        self.exc = exc
+
+
 class IntDec:
     def __init__(self, v):
         self.v = v
@@ -189,12 +196,12 @@ def fmt_percent(template, args):
         if c not in "disc":
             raise Unsupported(f"format %{c}")
         if k >= len(args):
-            raise Unsupported("not enough arguments for format string")
+            raise PyRaise("TypeError")          # not enough arguments for format string
         a = args[k]
         k += 1
         if c in "di":
             if isinstance(a, (str, TS)):
-                raise Unsupported("%d of a string (TypeError)")
+                raise PyRaise("TypeError")
             out.append(a)
         elif c == "c":
             if isinstance(a, int):
@@ -204,7 +211,7 @@ def fmt_percent(template, args):
         else:
             out.append(a)
     if k != len(args):
-        raise Unsupported("not all arguments converted during string formatting")
+        raise PyRaise("TypeError")              # not all arguments converted during string formatting
     out.append(template[pos:])
     return concat(out)
 
@@ -350,7 +357,10 @@ class VT:
                 raise Unsupported("symbolic number printed as text")
         elif isinstance(it, Text):
             if g["parser"] != "ground":
-                raise Unsupported("text run inside a control sequence")
+                # printable text arriving while a control sequence is still open: the sequence was not complete
+                self.oblige("complete-control-sequence", z3.Implies(to_z3(it.n) > 0 if not isinstance(it.n, int) else z3.BoolVal(it.n > 0), False),
+                            detail="text inside an unterminated sequence")
+                g["parser"] = "ground"
             self.print_run(it.n, it.ch)
         elif isinstance(it, Cond):
             self.cond(it)
@@ -463,8 +473,11 @@ class VT:
         p = g["parser"]
         if p[0] == "csi":
             _, priv, params, cur = p
-            if not (isinstance(cur, str) and cur == ""):
-                raise Unsupported("symbolic parameter adjacent to digits")
+            if isinstance(cur, str) and cur.strip("0") == "":
+                pass                      # leading zeros do not change the value
+            elif not (isinstance(cur, str) and cur == ""):
+                v = self.eng.sym_int("param_digits_then_number")      # digits followed by a number: some other value
+                self.st.pc.append(v >= 0)
             # a negative number would print '-' which is not a parameter byte
             self.oblige("complete-control-sequence:param>=0", to_z3(v) >= 0)
             g["parser"] = ("csi", priv, params, v)
@@ -512,11 +525,30 @@ class VT:
         g = self.g
         n = to_z3(n) if not isinstance(n, int) else n
         self.oblige("never-wraps", to_z3(g["col"]) + n <= to_z3(g["TW"]), kind="geometry")
+        if g.get("cells") is not None:
+            self.paint(g["col"], n, ch)
         g["col"] = g["col"] + n
         g["line_w"] = g["line_w"] + n
         g["written"] = g["written"] + n
         g["last_nl"] = If(n > 0, False, g["last_nl"]) if is_sym(n) else (z3.BoolVal(False) if n > 0 else g["last_nl"])
         g["log"] = g["log"] + [("text", n, ch)]
+
+    def paint(self, col, n, ch):
+        """cells [col, col+n) of the current line show glyph `ch` in the current colours: upper / lower half colours"""
+        g = self.g
+        kind = g["glyphs"].get(ch, 3)
+        fg, bg = g["fg"], g["bg"]
+        up, lo = (fg if kind == 1 else bg), (fg if kind == 2 else bg)
+        if kind == 3:
+            up = lo = (z3.BoolVal(False), z3.IntVal(-1), z3.IntVal(-1), z3.IntVal(-1))     # some other glyph: shows neither pixel
+        k = z3.Int("k!paint")
+        inside = z3.And(to_z3(col) <= k, k < to_z3(col) + to_z3(n))
+        cells = dict(g["cells"])
+        for half, val in (("up", up), ("lo", lo)):
+            for comp, v in zip(("d", "r", "g", "b"), val):
+                old = cells[half + comp]
+                cells[half + comp] = z3.Lambda([k], z3.If(inside, to_z3(v), old[k]))
+        g["cells"] = cells
 
     def csi(self, priv, params, fin):
         g = self.g
@@ -553,6 +585,8 @@ class VT:
         elif priv == "" and fin == "m":
             if not params:
                 g["sgr_default"] = z3.BoolVal(True)
+                if g.get("cells") is not None:
+                    g["fg"] = g["bg"] = (z3.BoolVal(True), z3.IntVal(0), z3.IntVal(0), z3.IntVal(0))
             else:
                 ok = len(params) == 5 and params[0] in (38, 48) and params[1] == 2
                 self.oblige("complete-control-sequence:sgr-form", z3.BoolVal(bool(ok)))
@@ -560,6 +594,8 @@ class VT:
                     for c in params[2:]:
                         self.oblige("sgr-colour-in-range", And(to_z3(c) >= 0, to_z3(c) <= 255), kind="colour")
                     g["sgr_default"] = z3.BoolVal(False)
+                    if g.get("cells") is not None:
+                        g["fg" if params[0] == 38 else "bg"] = (z3.BoolVal(False),) + tuple(to_z3(c) for c in params[2:])
                     g["log"] = g["log"] + [("sgr", params[0], tuple(params[2:]))]
         elif priv == "?" and fin in "hl" and len(params) == 1:
             if params[0] == 25:
